@@ -62,14 +62,25 @@ def gen_scenario(rnd, k):
             t0 += 5 * 10**9
     rnd.shuffle(evs)
     return dict(events=evs, async_flag=(k % 2 == 1), custom=(k % 4 >= 2), mapping=MAPPINGS[(k // 4) % len(MAPPINGS)] if k % 4 >= 2 else None,
-                bs=rnd.choice([3, 1000]))
+                bs=rnd.choice([3, 1000]), padded=(k % 5 == 4))
+
+
+def ty_namer(sc):
+    """event type strings; in 'padded' scenarios some types carry leading/trailing whitespace and one padded name
+    collides with an unpadded one once stripped (values must survive the file boundary byte for byte)"""
+    if not sc.get("padded"):
+        return S.s_ty
+
+    def f(i):
+        return {0: f"T{i} ", 1: f" T{i}", 2: f"T{i}"}[i % 3] if i % 10 != 3 else f"T{i - 1} "
+    return f
 
 
 def run_scenario(sc):
     import yaml
     res = dict(errors=[])
     with common.Scratch("c14") as d:
-        data = C.write_dataset(d, sc["events"])
+        data = C.write_dataset(d, sc["events"], ty_name=ty_namer(sc))
         seqcfg = {"async_flag": sc["async_flag"]}
         cfg = C.write_config(d, data, None, bs=sc["bs"], sequencer=seqcfg)
         mc = []
@@ -103,7 +114,7 @@ def in_memory_stream(sc):
     from tel2puml.otel_to_pv.otel_to_pv import otel_to_pv
     import yaml
     with common.Scratch("c14m") as d:
-        data = C.write_dataset(d, sc["events"])
+        data = C.write_dataset(d, sc["events"], ty_name=ty_namer(sc))
         cfg = yaml.safe_load(C.write_config(d, data, None, bs=sc["bs"], sequencer={"async_flag": sc["async_flag"]}).read_text())
         out = {}
         import contextlib, io
